@@ -5,7 +5,7 @@
 D=$1; shift
 mkdir -p $D/verify
 for i in "$@"; do for k in 1 2; do [ -f $D/out$i/change$k.diff ] && echo "$i $k"; done; done > $D/verify/todo.txt
-cat $D/verify/todo.txt | xargs -P 4 -L 1 sh -c 'python3 /verif/tools/seed_verify.py C$0 '$D'/out$0/change$1.diff --suite-only > '$D'/verify/C$0-$1.suite.json 2>&1'
+[ -n "$SKIP_SUITE" ] || cat $D/verify/todo.txt | xargs -P 4 -L 1 sh -c 'python3 /verif/tools/seed_verify.py C$0 '$D'/out$0/change$1.diff --suite-only > '$D'/verify/C$0-$1.suite.json 2>&1'
 while read i k; do
   files=$(grep '^+++ b/' $D/out$i/change$k.diff | sed 's,^+++ b/,,')
   ids="C$i"
